@@ -98,6 +98,12 @@ def c10(ctx):
     # must give the same report (rule shared with C19.R6)
     from .c19 import fresh_state
     fresh_state(ctx, "C10.R4")
+    rep.rule("C10.R5", "the bytes read and written do not depend on how the streams deliver them: the I/O shape rules of C08 re-checked here -- "
+             "one complete write (write_fmt / write_all, never a partial `write`) per say, one read_line per listen, and the fault table of "
+             "Environment::{output,input} (C08.R1, R2, R7): a short write, an interrupted call or a line arriving in two chunks gives the "
+             "same run as any other delivery of the same bytes")
+    from . import c08 as _c08
+    common.rerun_under(ctx, _c08.c08, "C10.R5", keep=lambda r: r in ("C08.R1", "C08.R2", "C08.R7"))
     rep.rule("C10.R3", "sorting: unstable sorts are accepted only on whole items (equal means identical); keyed unstable sorts need a "
              "reviewed entry; the lint report is sorted with the stable slice::sort_by_key")
     rep.trust("std and the dependencies are themselves deterministic; hash containers are order-insensitive when used by key only")
